@@ -117,3 +117,21 @@ func verifNote(m string)           { VerifNote(m) }
 func verifTier() int               { return VerifTier() }
 
 func VerifSetFile(name string, content []byte, length int, mode int) {}
+
+func VerifAnd(a, b bool) bool { return a && b }
+func VerifOr(a, b bool) bool  { return a || b }
+func verifAnd(a, b bool) bool { return a && b }
+func verifOr(a, b bool) bool  { return a || b }
+func VerifPadFile(name string, length int) {}
+
+func VerifIte(c bool, a, b int) int {
+	if c {
+		return a
+	}
+	return b
+}
+func verifIte(c bool, a, b int) int { return VerifIte(c, a, b) }
+
+// VerifShard: a case split explored by parallel executor instances.
+func VerifShard(n int) int { return VerifChoice(n) }
+func verifShard(n int) int { return VerifChoice(n) }
